@@ -12,6 +12,7 @@ func (e *Engine) lemmaObligations() ([]*Obl, error) {
 	var out []*Obl
 	for _, l := range e.lemmas {
 		fe := &FuncEnc{eng: e, name: "lemma." + l.Pkg, declared: map[string]bool{}, inlined: map[string]bool{}, trusted: map[string]bool{}, assumes: map[string]bool{}, bvOffsets: map[string]bvOffset{}, consts: map[string]bool{}}
+		fe.con = &Contract{Reveal: e.specs.opaque}
 		f := &Frame{params: map[string]Term{}, ptypes: map[string]types.Type{}, labelCnt: map[string]int{}}
 		fe.cur = f
 		var err error
